@@ -87,6 +87,7 @@ func init() {
 			checkC11Values(c, budget(c.Tier, 2500, 150000))
 			checkC11EnvList(c, budget(c.Tier, 800, 30000))
 			checkC11ChoicesChanged(c, budget(c.Tier, 300, 10000))
+			checkC11DeepUnmarshaler(c, budget(c.Tier, 200, 4000))
 		}}
 }
 
@@ -183,6 +184,7 @@ func init() {
 			base.run(c)
 			checkC07Renamed(c, budget(c.Tier, 300, 10000))
 			checkC07CommandNamespace(c, budget(c.Tier, 200, 6000))
+			checkC07DigitOption(c, budget(c.Tier, 200, 6000))
 		}}
 	}
 	parseProp("C08", caseRule+"emphasis: deep command trees, aliases, name clashes between levels", 2500, 100000, func(p *Profile) {
@@ -218,6 +220,7 @@ func init() {
 			checkC09Shadowed(c, budget(c.Tier, 300, 10000))
 			checkC09OuterWord(c, budget(c.Tier, 200, 6000))
 			checkC09CompletionMode(c, budget(c.Tier, 100, 2000))
+			checkC09MissingValue(c, budget(c.Tier, 200, 6000))
 		}}
 	}
 	parseProp("C10", caseRule+"emphasis: positional arguments of all kinds interleaved with options and the terminator", 2500, 100000, func(p *Profile) {
